@@ -19,7 +19,7 @@ LEVEL = 'exploration'
 RULE = ('case = key shape (generated from the seed) or a concatenation of shapes; one evaluation per export/import pass compared; non-trivial = shape with at '
         'least two components carrying signatures, or a non-exportable signature, or equal creation times; distinct = distinct shape descriptors')
 ASSUMPTIONS = ['vf.ref.grammar transferable-key parser (11.1/11.2)', 'signature validity per vf.ref.sig']
-MIN_COUNTERS = {'quick': {'shapes': 100, 'passes_compared': 500, 'signatures_reverified': 1500, 'nonexportable_seen': 20, 'concatenations': 20, 'copies': 120, 'foreign_encoded_keys': 15, 'generated_keys': 10, 'mixed_concatenations': 6},
+MIN_COUNTERS = {'quick': {'shapes': 100, 'passes_compared': 500, 'signatures_reverified': 1500, 'nonexportable_seen': 20, 'concatenations': 20, 'copies': 120, 'foreign_encoded_keys': 15, 'generated_keys': 10, 'mixed_concatenations': 6, 'held_public_exports': 30},
                 'thorough': {'shapes': 1500}}
 BUDGET = {'quick': (600, 1500), 'thorough': (1800, 3600)}
 TECHNIQUE = 'runtime monitoring: differential reference-model monitor (independent transferable-key parser + verifier) over generated key shapes'
@@ -45,6 +45,9 @@ def cases(tier, seed):
             if tier == 'quick' and (j + n_) % 2:
                 continue
             cs.append({'t': 'foreignenc', 'style': style, 'primary': p, 'sub': sname, 'protect': (j + n_) % 3 == 0, 'uid': ['utf8', 'latin1', 'notext'][(j + n_) % 3]})
+    # the public half is taken early (and kept by the caller) while the key keeps growing
+    for i in range(16 if tier == 'quick' else 400):
+        cs.append({'t': 'heldpub', 'i': i, 'seed': seed, 'keep': ['strong', 'strong', 'dropped', 'list'][i % 4]})
     if gpgx.available():
         cs.append({'t': 'gpg', 'seed': seed, 'n': 4 if tier == 'quick' else 20})
     return cs
@@ -85,6 +88,8 @@ def run_case(ctx, d):
             _generated(ctx, d, pgpy)
         elif d['t'] == 'foreignenc':
             _foreignenc(ctx, d, pgpy)
+        elif d['t'] == 'heldpub':
+            _heldpub(ctx, d, pgpy)
         else:
             _gpg(ctx, d, pgpy)
 
@@ -267,6 +272,75 @@ def _concat(ctx, d, pgpy):
             if dd:
                 ctx.fail('concatenated-key-structure-differs', {'n': n, 'form': form, 'differs': dd})
     ctx.nontrivial({'concat': d['i'], 'n': n})
+
+
+def _heldpub(ctx, d, pgpy):
+    """The caller takes key.pubkey early (to publish it, say) and keeps the object; the key then grows through every public way of growing
+    (add_uid, add_subkey, |= of a third-party certification on the identity, |= on the key, del_uid, revoke).  What is exported as the public
+    key afterwards - key.pubkey asked again - carries all of it: compared, after export and import, with the reference's public projection of
+    the private export."""
+    from pgpy.constants import KeyFlags, SignatureType
+    from . import C07
+    from .. import sigwork
+    r = ctx.rng('heldpub', d['i'], d['seed'])
+    shape = keyshape.random_shape(r, rich=False)
+    k, info = keyshape.build(shape)
+    if d.get('i', 0) % 3 == 2:
+        k = pgpy.PGPKey.from_blob(bytes(k))[0]          # a loaded key rather than a built one
+    other = sigwork.target_key()
+    kept = []
+    first = k.pubkey
+    if d['keep'] != 'dropped':
+        kept.append(first)
+    del first
+    pool_subs = ['ed25519_3', 'cv25519_2', 'ecdsa_p384_1']
+    ops = [r.choice(['add_subkey', 'third_party', 'add_uid', 'del_uid', 'revoke_uid', 'direct', 'key_or_sig']) for _ in range(r.randint(1, 5))]
+    if d['i'] < 3:
+        ops = [['add_subkey'], ['third_party'], ['add_uid', 'del_uid']][d['i']]
+    n = 0
+    for op in ops:
+        n += 1
+        if op == 'add_subkey' and pool_subs:
+            sn = pool_subs.pop()
+            k.add_subkey(pool.pgpy_bare(sn), usage={KeyFlags.EncryptCommunications} if pool.mat(sn)['alg'] == 18 else {KeyFlags.Sign})
+        elif op == 'third_party':
+            u = k.userids[0]
+            u |= other.certify(u, SignatureType.Casual_Cert)
+        elif op == 'add_uid':
+            k.add_uid(pgpy.PGPUID.new('Later %d' % n, email='later%d@example.org' % n), usage={KeyFlags.Sign})
+        elif op == 'del_uid' and len(k.userids) > 1:
+            k.del_uid(k.userids[-1].name)
+        elif op == 'revoke_uid' and len(k.userids) > 1:
+            u = k.userids[-1]
+            u |= k.revoke(u)
+        elif op == 'direct':
+            k |= k.certify(k)
+        elif op == 'key_or_sig':
+            k |= k.revoke(k)
+        if d['keep'] == 'list':
+            kept.append(k.pubkey)
+        # ---- the public export now
+        ctx.count('held_public_exports')
+        ctx.count('evaluations')
+        ctx.count('passes_compared')
+        want = C07.projection(bytes(k))
+        for form in ('binary', 'armor'):
+            pubobj = k.pubkey
+            data = bytes(pubobj) if form == 'binary' else str(pubobj)
+            where = {'case': d, 'ops_so_far': ops[:n], 'form': form}
+            try:
+                k2 = pgpy.PGPKey.from_blob(data)[0]
+                got, bad = C07.tree_of_public(bytes(k2))
+            except Exception as e:
+                ctx.fail('own-export-not-importable', dict(where, err=repr(e)[:160]))
+                continue
+            dd = C07.diff(got, want)
+            if dd:
+                ctx.fail('public-export-lacks-what-the-key-has', dict(where, differs=dd, earlier_public_objects_kept=len(kept)))
+            g2, b2, st2 = verified_sigs(pgpy, k2)
+            if b2:
+                ctx.fail('signature-fails-after-import', dict(where, bad=len(b2)))
+    ctx.nontrivial({'ops': ops, 'keep': d['keep']})
 
 
 def _generated(ctx, d, pgpy):
